@@ -412,7 +412,7 @@ def world_violation(pid, r):
     stale = bool(r["extra"][0]) if r.get("extra") else False
     is_store = op is not None and 30 <= op <= 42
     if pid == "C03":
-        if code in (1, 4) and is_store and stale:
+        if code in (1, 4) and (is_store or op == jg.JOIN) and stale:
             return "an access through a dead handle did not behave as absent (op %d: %s)" % (pos, wg.NAMES.get(op, op))
     if pid == "C05":
         if code == 1 and op in (sg.GET, sg.CONT, sg.MSK, sg.CNT, sg.EMP):
@@ -625,6 +625,11 @@ def gen_store(pid, tier, seed, scale, rng, hists, stats):
         for _ in range((150 if q else 1500) * scale):
             hists.append(sg.random_store_history(rng, rng.randint(10, 60)))
             stats["random storage histories"] += 1
+        # dead and stale handles through the join paths: lending lookup by entity, get_other / get_other_mut
+        for focus in ("restrict", "join"):
+            for _ in range((120 if q else 1500) * scale):
+                hists.append(jg.join_history(rng, rng.randint(6, 30), focus))
+                stats["%s-focused join histories (stale handles through joins)" % focus] += 1
     if pid == "C05":
         for _ in range((700 if q else 7000) * scale):
             hists.append(sg.purge_history(rng))
